@@ -3,6 +3,7 @@ import IrVerif.Drive.Clone
 import IrVerif.Drive.Kernel
 import IrVerif.Drive.Names
 import IrVerif.Drive.Pack
+import IrVerif.Drive.Passes
 import IrVerif.Drive.PassInfra
 import IrVerif.Drive.Writer
 import IrVerif.Drive.Sort
@@ -14,17 +15,22 @@ import IrVerif.Drive.Path
 import IrVerif.Drive.Layout
 import IrVerif.Drive.Journal
 import IrVerif.Drive.Serde
+import IrVerif.Drive.Scope
+import IrVerif.Drive.SymExpr
 /-! Line protocol: one JSON request per line on stdin (`{"m": "<model>.<fn>", ...}`), one JSON
 answer per line on stdout (`{"err": ...}` for malformed requests).  Imports models only — never a
 proof file — so that nothing it links touches Mathlib. -/
 open Lean IrVerif.Drive
 
 def handlers : List Handler := [
+  IrVerif.Drive.SymExpr.handle,
+  IrVerif.Drive.Scope.handle,
   IrVerif.Drive.Serde.handle,
   IrVerif.Drive.Clone.handle,
   IrVerif.Drive.Kernel.handle,
   IrVerif.Drive.Names.handle,
   IrVerif.Drive.Pack.handle,
+  IrVerif.Drive.Passes.handle,
   IrVerif.Drive.PassInfra.handle,
   IrVerif.Drive.Writer.handle,
   IrVerif.Drive.Sort.handle,
